@@ -23,18 +23,16 @@ harness on every run), the signature scheme (only `verify` is used; unforgeabili
 
 Variants. `cfg : Cfg` = which of the four repairs of the padding/sharding layer the code has; all
 four are in /repo (a2bceaf, 32710c6, 8f80b72, d76716c): the tree is `Cfg.current`. `pc : PCfg` = the
-wire/processor layer: the UnitFromProto guard is in /repo (a0ebef4); the three processor repairs are
-NOT (upstream left the processor unfinished; the diffs in /verif/proposed-fixes are not applied):
-`PCfg.current = ⟨wireGuard, ¬noPoison, ¬localFromPresent, ¬keyGuard⟩`.
+four repairs of the wire/processor layer, all in /repo as well (a0ebef4 UnitFromProto guard, 5ab3121
+no poisoning by an invalid first unit, d8826cb local unit from a present unit, 76dcbab publisher key
+check; c052836 wired the logger and the events channel, which has no model flag: the model always
+was the wired processor): `PCfg.current = PCfg.repaired`.
 
-Reading guide. §0–§8 are about the code as it is in /repo. Where /repo violates the full statement
-(§9, processor) the full-strength theorem carries the repair flag as hypothesis and the theorem
-named `*_current` next to it is the PROVED NEGATION for the code in /repo. §10 holds regression
-witnesses of repaired defects, named `*_before_fix_<commit>`: true statements about the flag value
-the code no longer has (the harness would drive the model with that value again if a repair were
-lost). The processor section (§9) is a model of unfinished upstream code: its tie to the real
-`Processor` runs on /repo with the two never-set fields (events channel, logger) set through a
-build overlay (`proposed-fixes/C19-processor-wiring.diff`), see notes/C19.md §3.
+Reading guide. §1–§9 are about the code as it is in /repo (`Cfg.current`, `PCfg.current`, or every
+flag value). §10 holds regression witnesses of repaired defects, named `*_before_fix_<commit>`: true
+statements about the flag value the code no longer has — the former `_current` negations of the
+processor section among them. The harness probes the flags on every run and a lost repair is a
+VIOLATION with a failing input (and drives the model with the old value again).
 -/
 namespace Juno.C19.Props
 open Juno.C19
@@ -450,47 +448,24 @@ theorem processor_broadcasts_once [DecidableEq H] (cfg : Cfg) (pc : PCfg) (f : H
   procRun_broadcasts_at_most_once cfg pc f rs sg s ops Proc.empty (procInv_empty s) i j hij ui uj si sj
     bi bj mi mj ei ej hi hj hk hbi hne hbj
 
-/-- `rejected_unit_is_noop` (with `noPoison`, proposed-fixes/C19-processor-first-invalid-unit-no-poison.diff)
-— "a unit … that does not match is rejected and cannot cause … the receiver to fail": in any
-reachable state a unit rejected by the validator of its message key triggers no broadcast and no
-build, does not panic, and leaves every later outcome of every later unit — of any message —
-exactly what it would have been without it. -/
-theorem rejected_unit_is_noop [DecidableEq H] (cfg : Cfg) (pc : PCfg) (hfix : pc.noPoison = true)
+/-- `rejected_unit_is_noop` (the code in /repo, since 5ab3121) — "a unit … that does not match is
+rejected and cannot cause … the receiver to fail": in any reachable state a unit rejected by the
+validator of its message key triggers no broadcast and no build, does not panic, and leaves every
+later outcome of every later unit — of any message — exactly what it would have been without it. -/
+theorem rejected_unit_is_noop [DecidableEq H] (cfg : Cfg)
     (f : HashFns H) (rs : RS) (sg : SigScheme H) (s : Sched) (p : Proc H) (hp : ProcInv s p)
     (u : PUnit H) (sender : Bytes) (e : VErr)
-    (hkey : pc.keyGuard = true ∨ sg.hasKey (keyOf u).publisher = true)
     (hrej : validate cfg f sg s (keyOf u).publisher
       ((p.findSub (keyOf u)).getD (SubState.fresh s.total)).v u sender = .error e) :
-    (∀ bc b en, (procStep cfg pc f rs sg s p u sender).2 = .handled bc b en → bc = [] ∧ b = none) ∧
-    (procStep cfg pc f rs sg s p u sender).2 ≠ .panic ∧
-    ∀ ops, procRun cfg pc f rs sg s (procStep cfg pc f rs sg s p u sender).1 ops =
-      procRun cfg pc f rs sg s p ops :=
-  Juno.C19.rejected_unit_is_noop cfg pc hfix f rs sg s p hp u sender e hkey hrej
-
-/- Full-strength statement for the code in /repo (drop `hfix`) — FALSE (known finding
-   `processor-drops-message-after-invalid-first-unit`). What the code in /repo does instead: -/
-
-/-- The proved negation for the code in /repo (`noPoison = false`), for ALL messages: when the FIRST
-unit of a message key is rejected the key enters the finalized cache, and from then on every unit of
-that message, the honest ones included, is ignored. -/
-theorem rejected_first_unit_suppresses_message_current [DecidableEq H] (cfg : Cfg)
-    (f : HashFns H) (rs : RS) (sg : SigScheme H) (s : Sched) (p : Proc H)
-    (u : PUnit H) (sender : Bytes) (e : VErr) (li : Nat) (hnew : p.findSub (keyOf u) = none)
-    (hnf : p.finalized.contains (keyOf u) = false)
-    (hsi : s.shardIndexFor (keyOf u).publisher = .ok li)
-    (hkey : sg.hasKey (keyOf u).publisher = true)
-    (hrej : validate cfg f sg s (keyOf u).publisher VState.fresh u sender = .error e)
-    (ops : List (PUnit H × Bytes)) (i : Nat) (u' : PUnit H) (sender' : Bytes)
-    (hop : ops[i]? = some (u', sender')) (hk : keyOf u' = keyOf u) :
-    (procRun cfg PCfg.current f rs sg s (procStep cfg PCfg.current f rs sg s p u sender).1 ops)[i]? =
-      some .ignored :=
-  finalized_key_ignores_units cfg PCfg.current f rs sg s (keyOf u) ops _
-    (first_invalid_unit_poisons_key cfg PCfg.current rfl f rs sg s p u sender e li hnew hnf hsi hkey hrej)
-    i u' sender' hop hk
+    (∀ bc b en, (procStep cfg PCfg.current f rs sg s p u sender).2 = .handled bc b en → bc = [] ∧ b = none) ∧
+    (procStep cfg PCfg.current f rs sg s p u sender).2 ≠ .panic ∧
+    ∀ ops, procRun cfg PCfg.current f rs sg s (procStep cfg PCfg.current f rs sg s p u sender).1 ops =
+      procRun cfg PCfg.current f rs sg s p ops :=
+  Juno.C19.rejected_unit_is_noop cfg PCfg.current rfl f rs sg s p hp u sender e (Or.inl rfl) hrej
 
 /-- LIVENESS — the processor-level form of "the original message can be rebuilt bit-for-bit from
-any subset of shards meeting the threshold, whichever shards are missing" (with `localFromPresent`,
-proposed-fixes/C19-processor-local-unit-from-present.diff): for a receiver whose scheduler
+any subset of shards meeting the threshold, whichever shards are missing" (the code in /repo, since
+d8826cb): for a receiver whose scheduler
 `NewScheduler` made, a publisher with a usable key, a processor that has not seen the message, and
 ANY `k` distinct shard indices in ANY order — the honest units with these indices, each from its
 designated sender (`Sched.sender`), make the processor
@@ -499,8 +474,7 @@ designated sender (`Sched.sender`), make the processor
 * and hand to `broadcastUnit`, over the whole run, exactly one unit: the publisher's unit for the
   local shard index — whether or not that unit was among the `k` received.
 Signing is only assumed to round-trip (`SigOk`); the codec satisfies `RSLaws`. -/
-theorem processor_builds_from_k_honest_units [DecidableEq H] (pc : PCfg)
-    (hfix : pc.localFromPresent = true) (f : HashFns H) (rs : RS) (sg : SigScheme H)
+theorem processor_builds_from_k_honest_units [DecidableEq H] (f : HashFns H) (rs : RS) (sg : SigScheme H)
     (id : Bytes) (nodes : List Bytes) (s : Sched) (hs : newScheduler id nodes = .ok s)
     (C P : Bytes) (hPm : P ∈ nodes) (hP : P ≠ id) (hkey : sg.hasKey P = true)
     (nonce : Nat) (msg : Bytes) (hl : RSLaws rs s.k s.c) (hin : PadInput msg s.k)
@@ -510,68 +484,23 @@ theorem processor_builds_from_k_honest_units [DecidableEq H] (pc : PCfg)
     (hnone : p.findSub (hKey f rs s C P nonce msg) = none)
     (idxs : List Nat) (hnd : idxs.Nodup) (hlt : ∀ i ∈ idxs, i < s.total) (hlen : idxs.length = s.k) :
     ∃ li, s.shardIndexFor P = .ok li ∧ li < s.total ∧ ∃ pre bc e,
-      procRun Cfg.current pc f rs sg s p
+      procRun Cfg.current PCfg.current f rs sg s p
           (idxs.map (fun i => (honestUnit Cfg.current f rs sg C P nonce msg s.k s.c i, s.sender P i))) =
         pre ++ [.handled bc (some msg) e] ∧
       (∀ o ∈ pre, ∃ b, o = .handled b none none) ∧
       (pre ++ [.handled bc (some msg) e]).flatMap ProcOut.bcast =
         [honestUnit Cfg.current f rs sg C P nonce msg s.k s.c li] :=
-  procRun_builds_from_honest_units f rs sg s C P nonce msg pc hfix id nodes hs hPm hP hkey hl hin hok
+  procRun_builds_from_honest_units f rs sg s C P nonce msg PCfg.current rfl id nodes hs hPm hP hkey hl hin hok
     hsmall hsig p hfin hnone idxs hnd hlt hlen
 
-/-- `processor_total` (a2bceaf, 32710c6 in place; with `localFromPresent` and `keyGuard`,
-proposed-fixes/C19-processor-local-unit-from-present.diff and
-C19-processor-publisher-key-check.diff): for a receiver whose scheduler `NewScheduler` made, in
-any reachable state, NO unit — honest or forged, whatever publisher it names — makes the processor
-panic. -/
-theorem processor_total [DecidableEq H] (pc : PCfg) (f : HashFns H) (rs : RS)
+/-- `processor_total` (the code in /repo: a2bceaf, 32710c6, d8826cb, 76dcbab): for a receiver whose
+scheduler `NewScheduler` made, in any reachable state, NO unit — honest or forged, whatever publisher
+it names, with or without a usable key — makes the processor panic. -/
+theorem processor_total [DecidableEq H] (f : HashFns H) (rs : RS)
     (sg : SigScheme H) (id : Bytes) (nodes : List Bytes) (s : Sched) (hs : newScheduler id nodes = .ok s)
-    (p : Proc H) (hp : ProcInv s p) (u : PUnit H) (sender : Bytes)
-    (h3 : pc.localFromPresent = true) (h4 : pc.keyGuard = true) (hl : RSLaws rs s.k s.c) :
-    (procStep Cfg.current pc f rs sg s p u sender).2 ≠ .panic :=
-  procStep_total Cfg.current pc f rs sg id nodes s hs p hp u sender rfl rfl h3 h4 hl
-
-/- Full-strength statement for the code in /repo (drop `h3`, `h4`) — FALSE twice (known findings
-   `processor-panics-filling-local-unit-when-shard0-not-received`,
-   `receiver-panics-on-publisher-without-embedded-key`): -/
-
-/-- Negation 1 for the code in /repo (`localFromPresent = false`), for ALL messages and every
-committee: `k` distinct honest units of one message, each from its designated sender, in any
-order, handed to a processor that has not seen the message — when neither shard 0 nor the local
-shard is among them, the first `k-1` are stored and the `k`-th PANICS the processor (nil
-dereference of `unitsReceived[0]` in the subprocessor's goroutine: the node dies). The honest
-units alone do it; no forged input is needed. (Instance below: a committee of 4.) -/
-theorem processor_panics_without_shard0_current [DecidableEq H]
-    (f : HashFns H) (rs : RS) (sg : SigScheme H)
-    (id : Bytes) (nodes : List Bytes) (s : Sched) (hs : newScheduler id nodes = .ok s)
-    (C P : Bytes) (hPm : P ∈ nodes) (hP : P ≠ id) (hkey : sg.hasKey P = true)
-    (nonce : Nat) (msg : Bytes) (hl : RSLaws rs s.k s.c) (hin : PadInput msg s.k)
-    (hok : rsNewOk s.k s.c = true) (hsmall : msg.length < 2 ^ 40)
-    (hsig : SigOk f rs sg s C P nonce msg) (p : Proc H)
-    (hfin : p.finalized.contains (hKey f rs s C P nonce msg) = false)
-    (hnone : p.findSub (hKey f rs s C P nonce msg) = none)
-    (idxs : List Nat) (hnd : idxs.Nodup) (hlt : ∀ i ∈ idxs, i < s.total) (hlen : idxs.length = s.k)
-    (li : Nat) (hshard : s.shardIndexFor P = .ok li) (h0 : 0 ∉ idxs) (hloc : li ∉ idxs) :
-    ∃ pre,
-      procRun Cfg.current PCfg.current f rs sg s p
-          (idxs.map (fun i => (honestUnit Cfg.current f rs sg C P nonce msg s.k s.c i, s.sender P i))) =
-        pre ++ [.panic] ∧
-      (∀ o ∈ pre, o = .handled [] none none) :=
-  procRun_panics_on_honest_units f rs sg s C P nonce msg PCfg.current rfl id nodes hs hPm hP hkey hl hin
-    hok hsmall hsig p hfin hnone idxs hnd hlt hlen li hshard h0 hloc
-
-/-- Negation 2 for the code in /repo (`keyGuard = false`): ANY unit that names as publisher a
-committee member whose peer id does not embed a public key (RSA, ECDSA), for a message key the node
-has not seen, panics the processor (`NewValidator` → `panic(err)` in the goroutine of the new
-subprocessor). Nothing else about the unit is looked at: shards, proof, signature, sender. -/
-theorem processor_panics_on_keyless_publisher_current [DecidableEq H] (cfg : Cfg)
-    (f : HashFns H) (rs : RS) (sg : SigScheme H) (s : Sched) (p : Proc H)
-    (u : PUnit H) (sender : Bytes) (li : Nat)
-    (hnf : p.finalized.contains (keyOf u) = false) (hnew : p.findSub (keyOf u) = none)
-    (hsi : s.shardIndexFor (keyOf u).publisher = .ok li)
-    (hkey : sg.hasKey (keyOf u).publisher = false) :
-    (procStep cfg PCfg.current f rs sg s p u sender).2 = .panic :=
-  procStep_panics_on_keyless_publisher cfg PCfg.current rfl f rs sg s p u sender li hnf hnew hsi hkey
+    (p : Proc H) (hp : ProcInv s p) (u : PUnit H) (sender : Bytes) (hl : RSLaws rs s.k s.c) :
+    (procStep Cfg.current PCfg.current f rs sg s p u sender).2 ≠ .panic :=
+  procStep_total Cfg.current PCfg.current f rs sg id nodes s hs p hp u sender rfl rfl rfl rfl hl
 
 /-! ## 10. Regression witnesses of repaired defects (`*_before_fix_<commit>`)
 
@@ -664,6 +593,68 @@ theorem unit_from_proto_before_fix_a0ebef4 (pu : ProtoUnit) :
   unitFromProto_pinned_panic_iff pu
 
 
+/-- Regression statement (processor.go before 5ab3121, `noPoison = false`), for ALL messages: when
+the FIRST unit of a message key was rejected the key entered the finalized cache, and from then on
+every unit of that message, the honest ones included, was ignored (fixed finding
+`processor-drops-message-after-invalid-first-unit`). -/
+theorem rejected_first_unit_suppressed_message_before_fix_5ab3121 [DecidableEq H] (cfg : Cfg)
+    (pc : PCfg) (hpin : pc.noPoison = false)
+    (f : HashFns H) (rs : RS) (sg : SigScheme H) (s : Sched) (p : Proc H)
+    (u : PUnit H) (sender : Bytes) (e : VErr) (li : Nat) (hnew : p.findSub (keyOf u) = none)
+    (hnf : p.finalized.contains (keyOf u) = false)
+    (hsi : s.shardIndexFor (keyOf u).publisher = .ok li)
+    (hkey : sg.hasKey (keyOf u).publisher = true)
+    (hrej : validate cfg f sg s (keyOf u).publisher VState.fresh u sender = .error e)
+    (ops : List (PUnit H × Bytes)) (i : Nat) (u' : PUnit H) (sender' : Bytes)
+    (hop : ops[i]? = some (u', sender')) (hk : keyOf u' = keyOf u) :
+    (procRun cfg pc f rs sg s (procStep cfg pc f rs sg s p u sender).1 ops)[i]? =
+      some .ignored :=
+  finalized_key_ignores_units cfg pc f rs sg s (keyOf u) ops _
+    (first_invalid_unit_poisons_key cfg pc hpin f rs sg s p u sender e li hnew hnf hsi hkey hrej)
+    i u' sender' hop hk
+
+/-- Regression statement (processor.go before d8826cb, `localFromPresent = false`), for ALL messages
+and every committee: `k` distinct honest units of one message, each from its designated sender, in
+any order, handed to a processor that had not seen the message — when neither shard 0 nor the local
+shard was among them, the first `k-1` were stored and the `k`-th PANICKED the processor (nil
+dereference of `unitsReceived[0]` in the subprocessor's goroutine: the node died). Honest traffic
+alone did it (fixed finding `processor-panics-filling-local-unit-when-shard0-not-received`;
+instance below: a committee of 4). -/
+theorem processor_panicked_without_shard0_before_fix_d8826cb [DecidableEq H]
+    (pc : PCfg) (hpin : pc.localFromPresent = false)
+    (f : HashFns H) (rs : RS) (sg : SigScheme H)
+    (id : Bytes) (nodes : List Bytes) (s : Sched) (hs : newScheduler id nodes = .ok s)
+    (C P : Bytes) (hPm : P ∈ nodes) (hP : P ≠ id) (hkey : sg.hasKey P = true)
+    (nonce : Nat) (msg : Bytes) (hl : RSLaws rs s.k s.c) (hin : PadInput msg s.k)
+    (hok : rsNewOk s.k s.c = true) (hsmall : msg.length < 2 ^ 40)
+    (hsig : SigOk f rs sg s C P nonce msg) (p : Proc H)
+    (hfin : p.finalized.contains (hKey f rs s C P nonce msg) = false)
+    (hnone : p.findSub (hKey f rs s C P nonce msg) = none)
+    (idxs : List Nat) (hnd : idxs.Nodup) (hlt : ∀ i ∈ idxs, i < s.total) (hlen : idxs.length = s.k)
+    (li : Nat) (hshard : s.shardIndexFor P = .ok li) (h0 : 0 ∉ idxs) (hloc : li ∉ idxs) :
+    ∃ pre,
+      procRun Cfg.current pc f rs sg s p
+          (idxs.map (fun i => (honestUnit Cfg.current f rs sg C P nonce msg s.k s.c i, s.sender P i))) =
+        pre ++ [.panic] ∧
+      (∀ o ∈ pre, o = .handled [] none none) :=
+  procRun_panics_on_honest_units f rs sg s C P nonce msg pc hpin id nodes hs hPm hP hkey hl hin
+    hok hsmall hsig p hfin hnone idxs hnd hlt hlen li hshard h0 hloc
+
+/-- Regression statement (processor.go before 76dcbab, `keyGuard = false`): ANY unit that named as
+publisher a committee member whose peer id does not embed a public key (RSA, ECDSA), for a message
+key the node had not seen, panicked the processor (`NewValidator` → `panic(err)` in the goroutine
+of the new subprocessor); nothing else about the unit was looked at (fixed finding
+`receiver-panics-on-publisher-without-embedded-key`). -/
+theorem processor_panicked_on_keyless_publisher_before_fix_76dcbab [DecidableEq H] (cfg : Cfg)
+    (pc : PCfg) (hpin : pc.keyGuard = false)
+    (f : HashFns H) (rs : RS) (sg : SigScheme H) (s : Sched) (p : Proc H)
+    (u : PUnit H) (sender : Bytes) (li : Nat)
+    (hnf : p.finalized.contains (keyOf u) = false) (hnew : p.findSub (keyOf u) = none)
+    (hsi : s.shardIndexFor (keyOf u).publisher = .ok li)
+    (hkey : sg.hasKey (keyOf u).publisher = false) :
+    (procStep cfg pc f rs sg s p u sender).2 = .panic :=
+  procStep_panics_on_keyless_publisher cfg pc hpin f rs sg s p u sender li hnf hnew hsi hkey
+
 /-! ## Non-vacuity: the hypotheses are satisfiable -/
 
 example : Ideal termFns := ideal_termFns
@@ -675,7 +666,7 @@ example : RSLaws repCode12 1 2 := repCode12_laws
 example : PadInput [1, 2, 3] 3 := by unfold PadInput; decide
 example : rsNewOk 3 6 = true := by decide
 example : RoutesOk (⟨fun _ => [1], fun _ _ _ => true, fun _ => true⟩ : SigScheme HTerm) [] := routesOk_nil _
-example : Cfg.current = Cfg.repaired ∧ PCfg.current = ⟨true, false, false, false⟩ := ⟨rfl, rfl⟩
+example : Cfg.current = Cfg.repaired ∧ PCfg.current = PCfg.repaired := ⟨rfl, rfl⟩
 example : unitFromProto true ⟨[], 0, [], [], [], [], [], 0⟩ = .err .noShards ∧
     unitFromProto true ⟨[[1, 2]], 0, [], [], [], [], [], 0⟩ = .err .rootLen ∧
     unitFromProto true ⟨[[1, 2], [3], [4, 5]], 0, [0, 1], [], [], [], [], 0⟩ = .err .rootLen ∧
@@ -703,26 +694,25 @@ def sched4 : Sched := ⟨[1], 0, [[1], [2], [3], [4]], 1, 2⟩
 /-- A run that builds: committee of 3, publisher `[2]`, the receiver's local shard index is 0, it
 receives only unit 1 (from `[3]`): the message `hi` is built and unit 0 is broadcast. -/
 example : ∃ li pre bc e, sched3.shardIndexFor [2] = .ok li ∧
-    procRun Cfg.current PCfg.repaired termFns repCode11 toySig sched3 Proc.empty
+    procRun Cfg.current PCfg.current termFns repCode11 toySig sched3 Proc.empty
       [(honestUnit Cfg.current termFns repCode11 toySig [7] [2] 5 [104, 105] 1 1 1, sched3.sender [2] 1)] =
       pre ++ [.handled bc (some [104, 105]) e] ∧
     (pre ++ [.handled bc (some [104, 105]) e]).flatMap ProcOut.bcast =
       [honestUnit Cfg.current termFns repCode11 toySig [7] [2] 5 [104, 105] 1 1 li] := by
   obtain ⟨li, h1, _, pre, bc, e, h2, _, h3⟩ :=
-    processor_builds_from_k_honest_units PCfg.repaired rfl termFns repCode11 toySig [1] [[3], [1], [2]]
+    processor_builds_from_k_honest_units termFns repCode11 toySig [1] [[3], [1], [2]]
       sched3 rfl [7] [2] (by decide) (by decide) rfl 5 [104, 105] repCode11_laws
       (by unfold PadInput; decide) (by decide) (by decide) ⟨by decide, rfl⟩ Proc.empty rfl rfl
       [1] (by decide) (by decide) rfl
   exact ⟨li, pre, bc, e, h1, h2, h3⟩
 
-/-- The same on the code in /repo with a committee of 4: the receiver's local index is 0, the only
-unit it receives is unit 2 — `k = 1` honest unit from its designated sender — and the processor
-panics. -/
-example : procRun Cfg.current PCfg.current termFns repCode12 toySig sched4 Proc.empty
+/-- The code before d8826cb with a committee of 4: the receiver's local index is 0, the only unit it
+receives is unit 2 — `k = 1` honest unit from its designated sender — and the processor panicked. -/
+example : procRun Cfg.current ⟨true, true, false, true⟩ termFns repCode12 toySig sched4 Proc.empty
       [(honestUnit Cfg.current termFns repCode12 toySig [7] [2] 5 [104, 105] 1 2 2, sched4.sender [2] 2)] =
       [.panic] := by
   obtain ⟨pre, h, _⟩ :=
-    processor_panics_without_shard0_current termFns repCode12 toySig [1] [[3], [1], [2], [4]]
+    processor_panicked_without_shard0_before_fix_d8826cb ⟨true, true, false, true⟩ rfl termFns repCode12 toySig [1] [[3], [1], [2], [4]]
       sched4 rfl [7] [2] (by decide) (by decide) rfl 5 [104, 105] repCode12_laws
       (by unfold PadInput; decide) (by decide) (by decide) ⟨by decide, rfl⟩ Proc.empty rfl rfl
       [2] (by decide) (by decide) rfl 0 rfl (by decide) (by decide)
